@@ -46,6 +46,7 @@ type Trimmer struct {
 	structsTrimmed         int
 	fieldsTrimmed          int
 	extServices            []*parser.Service
+	extKeep                map[*parser.Service]struct{}
 	PreservedFiles         []string
 	preserveFileStructs    map[*parser.StructLike]struct{}
 	preserveCache          map[*parser.StructLike]bool
